@@ -309,7 +309,13 @@ package channel
 //@   at call! channel.(*Channel).Close#1 assert #a-failed-open-is-cleaned-up-by-the-channels-own-close reterr != nil && recv == c
 //@   ensures #failed-open-closes-the-transport reterr != nil ==> implClosed
 
+// loginOut: ghost - what the in-channel login read (banner, first prompt; for NETCONF the server hello)
+//@ ghost loginOut []byte local
 //@ func (*Channel).Open [C07 C10 C11]
+//@   after call Open#1 set loginOut = ""
+//@   after call AuthenticateSSH#1 set loginOut = result.0
+//@   after call AuthenticateTelnet#1 set loginOut = result.0
+//@   at return assert [C10] #what-the-login-read-stays-available-to-the-first-operation result == nil && len(loginOut) > 0 ==> len(c.Q.queue) >= 1 && c.Q.queue[0] == loginOut
 //@   requires RI(c.Q) && c.Errs != c.Q.depthChan && c.PromptSearchDepth >= 0
 //@   ensures #queue-invariant-kept RI(c.Q)
 //@   flows [C11] #login-password-goes-only-to-the-login-functions authData.Password only to AuthenticateSSH#1.arg0, AuthenticateTelnet#1.arg1
